@@ -43,7 +43,9 @@
 (define-fun rowinv.callbacks ((r Row.callbacks)) Bool
   (and (not (is-none (callbacks.id r))) (not (is-none (callbacks.promise_id r))) (not (is-none (callbacks.root_promise_id r)))
        (not (is-bnone (callbacks.recv r))) (not (is-bnone (callbacks.mesg r))) (not (= (callbacks.mesg r) (bsome json.null)))
-       (not (is-inone (callbacks.timeout r)))))
+       (not (is-inone (callbacks.timeout r)))
+       ; a registration carries a resume or notify message, never an invocation (C08: invocation tasks are born with their promise)
+       (not (= (unjson.message.Mesg.0 (data (callbacks.mesg r))) lit.invoke))))
 (define-fun rely.callbacks.fixed ((a Row.callbacks) (b Row.callbacks)) Bool (=> (and (callbacks.present a) (callbacks.present b)) (= a b)))
 (define-fun rely.callbacks.rowinv ((a Row.callbacks) (b Row.callbacks)) Bool (=> (callbacks.present b) (rowinv.callbacks b)))
 (define-fun rely.callbacks ((a Row.callbacks) (b Row.callbacks)) Bool (and (rely.callbacks.fixed a b) (rely.callbacks.rowinv a b)))
@@ -147,3 +149,9 @@
   (=> (and (tasks.present t0) (or (= (tasks.state t0) (isome 1)) (= (tasks.state t0) (isome 2))) (= (tasks.state t1) (isome 8)))
       (or (and (p.pending p0) (not (p.pending p1)))
           (= (unjson.message.Mesg.0 (data (tasks.mesg t0))) lit.notify))))
+
+; ---- C08/C06: an invocation task is born only in the transaction that creates its (root) promise:
+; a routed promise and its task are one atomic step, never two.
+(define-fun xguar.C08.born ((t0 Row.tasks) (t1 Row.tasks) (p0 Row.promises) (p1 Row.promises)) Bool
+  (=> (and (not (tasks.present t0)) (tasks.present t1) (= (unjson.message.Mesg.0 (data (tasks.mesg t1))) lit.invoke))
+      (and (not (promises.present p0)) (promises.present p1))))
